@@ -132,13 +132,15 @@ class FuncTranslator:
             return '(%s).isSome' % par(v)
         if t == 'none':
             return 'false'
-        if t in ('date', 'match'):
+        if t in ('date', 'match', 'module'):
             return 'true'
         raise Unsupported('truthiness of ' + t)
 
     def coerce(self, v, t, want):
         if t == want or want is None:
             return v
+        if '?' in want and self.final is None:
+            return v     # pass 1: element types not known yet; only types matter in this pass
         if want == 'any':
             raise Unsupported('coerce to any')
         if t == 'none' and is_opt(want):
@@ -582,6 +584,8 @@ class FuncTranslator:
         v, t = self.expr(e.value)
         if t == 'date' and e.attr in ('year', 'month', 'day'):
             return ('(%s).%s' % (par(v), e.attr), 'int')
+        if t == 'module' and e.attr == '__name__':
+            return ('(Py.ofString %s)' % par(v), 'str')
         raise Unsupported('attribute .%s of %s' % (e.attr, t))
 
     def e_Lambda(self, e):
@@ -901,6 +905,11 @@ class FuncTranslator:
             raise Unsupported('match method ' + meth)
         if t == 'regex':
             return self.regex_method(v, meth, e)
+        if t == 'module':
+            return self.m.dispatch_call(v, meth, e, self)
+        if t == 'opt[module]':
+            code, rt = self.m.dispatch_call('m__', meth, e, self)
+            return ('(← (do match %s with | some m__ => pure %s | none => Py.raise .attributeError : R %s))' % (par(v), par(code), par(lean_type(rt))), rt)
         if t == 'date':
             raise Unsupported('date method ' + meth)
         if t == 'int' and meth == 'bit_length' and not args:
@@ -1313,6 +1322,14 @@ class FuncTranslator:
             if n in store:
                 head.append('  let mut %s := %s' % (ln, ln))
         self.param_names = {mangle(n) for n in self.sig.params}
+        for g in self.m.cache_globals():
+            # a module-level dict used as a cache: modelled as a local that starts empty (cold cache);
+            # that warm and cold caches agree is property C13
+            if any(isinstance(n, ast.Name) and n.id == g for n in ast.walk(self.fn)):
+                ln = mangle(g)
+                t0 = 'dict[?,?]' if self.final is None else self.final.get(ln, 'dict[?,?]')
+                self.env[g] = (ln, t0)
+                self.var_decl[ln] = unify(self.var_decl.get(ln), t0)
         body = self.stmts(self.fn.body, 1)
         return head, body
 
@@ -1360,5 +1377,6 @@ class FuncTranslator:
         params += ['(%s : %s)' % (mangle(n), lean_type(t)) for n, t in zip(self.sig.params, self.sig.ptypes)]
         headline = 'def %s %s : R %s := do' % (mangle(self.fn.name), ' '.join(params), par(lean_type(rt)))
         if self.uses_today and not self.sig.needs_today:
-            raise Unsupported('reads the clock but was not marked (internal)')
+            self.m.ctx.extra_today.add((self.sig.modname, self.sig.name))
+            raise Unsupported('reads the clock but was not marked (retry)')
         return '\n'.join([headline] + head + decls + body)
